@@ -21,6 +21,7 @@ Inductive gev :=
 | GSpawn (f : string)                (* go closure f *)
 | GWait                              (* wg.Wait() *)
 | GCreate (excl : bool)              (* os.OpenFile(.. O_CREATE [|O_EXCL]) *)
+| GRelease                            (* os.Remove / os.Rename: a name is given up or replaced *)
 | GRmw (v : string) (atomic : bool)  (* a write of guarded v whose value derives from a read of v;
                                         atomic = read and write lie in ONE acquire..release region *)
 | GBad (why : string).               (* a shape the translator cannot linearise soundly *)
@@ -80,6 +81,7 @@ Fixpoint expand (fuel : nat) (funcs : list (string * list gev)) (l : list gev) :
         | GWait => [Nop "wait"]
         | GCreate true => [Nop "create-excl"]
         | GCreate false => [Nop "create-nonexcl"]
+        | GRelease => [Nop "release"]
         | GRmw v true => [Nop ("rmw-atomic " ++ v)]
         | GRmw v false => [Nop ("rmw-split " ++ v)]
         | GBad _ => [Fail]
@@ -413,3 +415,17 @@ Definition conf_rejects (name value : string) : bool :=
   else if String.eqb name "trim" then
     negb (mem (to_lower value) ["true"; "t"; "yes"; "y"; "1"; ""; "false"; "f"; "no"; "n"; "0"])  (* stringToBool *)
   else true.
+
+(* ------------------------------------------------------------------------------------------ *)
+(* Part G: glue of a multi-source invocation (internal/driver/fetch.go grabProfile/concurrentGrab with
+   the default transport): whether a source is fetched depends on that source alone -- kind 0 http,
+   1 https+insecure (certificate not verified), 2 https with a certificate the client does not trust
+   (refused), 3 local file -- never on what is fetched next to it; the result is the merge of the
+   fetched ones (weights add up, C03/C16), and the invocation fails iff nothing was fetched. *)
+Definition e2e_accepts (kind : Z) : bool := negb (kind =? 2)%Z.
+Fixpoint e2e_total (srcs : list (Z * Z)) : Z :=
+  match srcs with
+  | [] => 0%Z
+  | (k, v) :: r => ((if e2e_accepts k then v else 0) + e2e_total r)%Z
+  end.
+Definition e2e_any (srcs : list (Z * Z)) : bool := existsb (fun s => e2e_accepts (fst s)) srcs.
